@@ -398,6 +398,12 @@ fn bound_cases(seeds: u64, base_seed: u64) -> Vec<BoundCase> {
             for x in [1e300, -1e300, f64::MAX, -f64::MAX, 1e100, -1e17] {
                 out.push(BoundCase { op, coords: vec![(Fb::of(-1.0), Fb::of(1.0), Fb::of(x)), (Fb::of(3.0), Fb::of(7.0), Fb::of(-x))], seed: 1 });
             }
+            // ... also relative to narrow domains, where distance / width exceeds the largest finite number
+            for (a, b) in [(0.0, 0.1), (1e-3, 2e-3), (-1e-3, 1e-3), (-1e-300, 1e-300), (0.25, 0.5)] {
+                for x in [1e308, -1e308, 1e306, f64::MAX, -f64::MAX, 1e300, -1e200, 1e17] {
+                    out.push(BoundCase { op, coords: vec![(Fb::of(a), Fb::of(b), Fb::of(x))], seed: 2 });
+                }
+            }
         }
     }
     out
